@@ -413,7 +413,9 @@ def run_check(prop, tier, seed):
 
 
 def _write_evidence(mod, prop, tier, seed, total, per_part, exhaustive_flags, wall, violations, nreg, budget_hit):
-    os.makedirs(os.path.join(HERE, "evidence"), exist_ok=True)
+    # evidence/ describes runs against /repo itself; a sensitivity run against another tree (VERIF_REPO) writes elsewhere
+    evdir = os.path.join(HERE, "evidence") if not os.environ.get("VERIF_REPO") else os.path.join(HERE, ".work", "evidence-other-tree")
+    os.makedirs(evdir, exist_ok=True)
     cov = {
         "evaluations": total.evaluations,
         "distinct_nontrivial": len(total.nontrivial) + total.extra_nontrivial,
@@ -433,5 +435,5 @@ def _write_evidence(mod, prop, tier, seed, total, per_part, exhaustive_flags, wa
         "property_id": prop, "tier": tier, "seed": seed, "level": "exploration", "coverage": cov,
         "assumptions": getattr(mod, "ASSUMPTIONS", []), "wall_s": round(wall, 2), "violations": violations,
     }
-    with open(os.path.join(HERE, "evidence", "%s.json" % prop), "w") as f:
+    with open(os.path.join(evdir, "%s.json" % prop), "w") as f:
         json.dump(ev, f, indent=1)
